@@ -337,6 +337,10 @@ impl Type {
                 if !function.params.is_empty() {
                     return None;
                 }
+                // a function that never returns is an iterator that yields nothing
+                if function.return_type == Type::Never {
+                    return Some(Type::Never);
+                }
                 let return_tuple = function.return_type.clone().flatten_tuple()?;
                 if return_tuple.len() != 2 || return_tuple[0] != Type::Bool {
                     return None;
